@@ -257,3 +257,88 @@ func VerifC05Objects() {
 	c05Num(vs, "inits", 2, "C05.init-runs-once-per-new")
 	c05Num(vs, "q", x, "C05.objects-do-not-share-state")
 }
+
+func c05List(vs parser.Scope, name string, want []float64, label string) {
+	l, ok := c05Get(vs, name).([]interface{})
+	zz.Assert(ok && len(l) == len(want), label)
+	if ok && len(l) == len(want) {
+		for i := range want {
+			f, isNum := l[i].(float64)
+			zz.Assert(isNum && zz.SameFloat(f, want[i]), label)
+		}
+	}
+}
+
+// VerifC05FreshLists: lists are reference values and concat returns a NEW list (language reference): a list of
+// symbolic length N (0..5, built by a literal or by repeated add, so that every backing-array fill level occurs)
+// is the first or second argument of two concat calls; then one of the lists is written through an index.
+// Every list is compared with a model of independent lists: a later concat of the same argument and a write
+// through one list are never visible in another one; an alias made by assignment sees the write.
+func VerifC05FreshLists() {
+	erp, _ := zzProvider()
+	vs := zzScope()
+	n := zz.Len("n", 0, 5)
+	v1, v2, w := zz.Float64("v1"), zz.Float64("v2"), zz.Float64("w")
+	vs.SetValue("v1", v1)
+	vs.SetValue("v2", v2)
+	vs.SetValue("w", w)
+	var a []float64
+	src := "a := ["
+	byAdd := zz.Bool("builtByAdd")
+	if byAdd {
+		src = "a := []\n"
+	}
+	for i := 0; i < n; i++ {
+		a = append(a, float64(i+1))
+		d := string(rune('1' + i))
+		if byAdd {
+			src += "a := add(a, " + d + ")\n"
+		} else {
+			if i > 0 {
+				src += ", "
+			}
+			src += d
+		}
+	}
+	if !byAdd {
+		src += "]\n"
+	}
+	src += "al := a\n"
+	var b, c []float64
+	if zz.Bool("sharedArgumentFirst") {
+		src += "b := concat(a, [v1])\nc := concat(a, [v2])\n"
+		b = append(append([]float64(nil), a...), v1)
+		c = append(append([]float64(nil), a...), v2)
+	} else {
+		src += "b := concat([v1], a)\nc := concat([v2], a)\n"
+		b = append([]float64{v1}, a...)
+		c = append([]float64{v2}, a...)
+	}
+	// write through one of the lists
+	switch zz.Choice("writeTo", 3) {
+	case 0:
+		if n > 0 {
+			src += "a[0] := w\n"
+			a[0] = w
+		}
+	case 1:
+		src += "b[0] := w\n"
+		b[0] = w
+	case 2:
+		src += "c[" + string(rune('0'+len(c)-1)) + "] := w\n"
+		c[len(c)-1] = w
+	}
+	src += "d := concat(b, c)\nn := len(d)"
+	_, err := zzRun(erp, src, vs)
+	zz.Reach("evaluated")
+	zz.Assert(err == nil, "C05.builtin-succeeds")
+	if err != nil {
+		return
+	}
+	c05List(vs, "a", a, "C05.concat-leaves-its-arguments-alone")
+	c05List(vs, "al", a, "C05.lists-are-passed-by-reference")
+	c05List(vs, "b", b, "C05.concat-returns-a-new-list")
+	c05List(vs, "c", c, "C05.concat-returns-a-new-list")
+	c05List(vs, "d", append(append([]float64(nil), b...), c...), "C05.list-model")
+	c05Num(vs, "n", float64(len(b)+len(c)), "C05.len-agrees-with-list-model")
+}
